@@ -35,24 +35,27 @@ def plan(tier, seed):
 
     groups = []
     n = 0
-    for name in XT:
+    xts = XT if tier == "quick" else XT + ["CsCl-2", "rhomb-prim-2", "mono-P21-2", "bct-conv-2", "trig-P3-4", "tri-P-1bar-2", "rutile-6", "ortho-P-2"]
+    sss = SS if tier == "quick" else SS + [[[4, 0, 0], [0, 1, 0], [0, 0, 1]], [[1, 0, 1], [0, 2, 0], [-1, 0, 1]], [[2, 0, 0], [0, 2, 0], [0, 0, 3]], [[-1, 1, 1], [1, -1, 1], [1, 1, -1]], [[5, 0, 0], [0, 1, 0], [0, 0, 1]]]
+    tseqs = ([300.0, 10.0], [0.0, 2000.0, 300.0]) if tier == "quick" else ([300.0, 10.0], [0.0, 2000.0, 300.0], [1e-3, 1e5], [77.0], [300.0, 300.0, 0.0, 300.0])
+    for name in xts:
         nat = len(X.by_name()[name]["symbols"])
-        for S in SS:
-            if abs(RL.det3(S)) * nat > 24:
+        for S in sss:
+            if abs(RL.det3(S)) * nat > (24 if tier == "quick" else 40):
                 continue
             g = []
-            for stat, cutoff, tseq in itertools.product(("quantum", "classical"), (None, "between"), ([300.0, 10.0], [0.0, 2000.0, 300.0])):
+            for stat, cutoff, tseq in itertools.product(("quantum", "classical"), (None, "between"), tseqs):
                 if stat == "classical" and 0.0 in tseq:
                     tseq = [t for t in tseq if t > 0] + [50.0]
                 g.append({"part": "rd", "xtal": name, "S": S, "stat": stat, "cutoff": cutoff, "T": tseq})
                 n += 1
             groups.append(g)
-    for name in XT:
+    for name in xts:
         g = []
-        for mesh, fwin in itertools.product(([2, 2, 2], [3, 2, 1], [2, 2, 3]), (None, "window")):
+        for mesh, fwin in itertools.product(([2, 2, 2], [3, 2, 1], [2, 2, 3]) if tier == "quick" else ([2, 2, 2], [3, 2, 1], [2, 2, 3], [4, 4, 4], [1, 1, 5], [3, 3, 3]), (None, "window")):
             g.append({"part": "tdm", "xtal": name, "mesh": mesh, "fwin": fwin})
         groups.append(g)
-    meta = {"alphabet": {"crystals": XT, "supercells": len(SS), "statistics": 2, "cutoff": 2, "temperature_sequences": 2, "rd_cases": n},
+    meta = {"alphabet": {"crystals": xts, "supercells": len(sss), "statistics": 2, "cutoff": 2, "temperature_sequences": 2, "rd_cases": n},
             "bound": "complete product", "exhaustive": True, "not_covered": ["max_distance clipping (non-linear) beyond |u| <= max_distance"]}
     return groups, meta
 
@@ -172,7 +175,16 @@ def run_tdm(case, seed, st):
     f, ev = np.array(md["frequencies"]), np.array(md["eigenvectors"])
     fmin, fmax = (1e-3, None) if not case["fwin"] else (0.3 * f.max(), 0.8 * f.max())
     temps = [0.0, 100.0, 900.0]
-    ph.run_thermal_displacement_matrices(temperatures=temps, freq_min=fmin, freq_max=fmax)
+    try:
+        ph.run_thermal_displacement_matrices(temperatures=temps, freq_min=fmin, freq_max=fmax)
+    except AssertionError:
+        # phonopy's own sanity check `abs(imag) < 1e-10` (absolute, in A^2) on the accumulated matrices.  With modes of a few 1e-3 THz
+        # (floppy model lattice) single terms are ~1e5 A^2 and their rounding alone exceeds it: no result is returned, nothing to judge.
+        sel = f[(f > fmin) & ((f < fmax) if fmax else True)]
+        big = (U.Hbar * U.EV / (2 * np.pi * sel.min() * 1e12) * (U.Kb * max(temps) / (U.Hbar * 2 * np.pi * sel.min() * 1e12)) / U.AMU / 1e-20 / np.asarray(ph.primitive.masses).min()) if len(sel) else 0.0
+        if big * 2.2e-16 * f.size > 1e-10:  # f.size = number of accumulated terms
+            return dict(ok=True, skipped="phonopy's internal sanity assertion (absolute 1e-10 A^2 on rounding) refuses a lattice with modes of ~1e-3 THz: no result to judge")
+        return dict(ok=False, sig="C19/tdm/assertion/" + tag, nontrivial=True, msg="%s mesh=%s: run_thermal_displacement_matrices raised AssertionError although all terms are small (largest %.3g A^2)" % (case["xtal"], mesh, big))
     d = ph.get_thermal_displacement_matrices_dict()
     Um = np.array(d["thermal_displacement_matrices"])
     Uc = np.array(d["thermal_displacement_matrices_cif"])
